@@ -5,6 +5,10 @@ V = os.path.dirname(os.path.dirname(os.path.abspath(__file__)))
 
 # id: (level, engine, technique, level text, level note, design section)
 CHECKS = {
+ "C17": ("model_checking", "e3a",
+  "all set partitions of the heights into blk files x range shapes; the real binary's syscall trace (LD_PRELOAD interposer: open/close of blk files interleaved with per-height markers) is replayed through the open-set automaton of the statement and its peak compared with the model's overlap number; plus black-box runs under a calibrated RLIMIT_NOFILE",
+  "For every one of the Bell(6)=203 (thorough Bell(8)=4140) height->file assignments and 4 range shapes the trace must satisfy: after the block of height h is delivered no open blk file has its highest block <= h, and the peak number of open blk files equals the overlap number; the same run must succeed with RLIMIT_NOFILE = N1 + overlap - 1 (N1 calibrated on the single-file layout with the same binary); 200 and 1200 disjoint one-block files run under N1 with trace peak 1.",
+  "Trusted: the interposer sees every open/close (Rust std uses libc open64/close). 'Height yet to come' is read against the whole index.", "6/C17"),
  "C11": ("model_checking", "e2",
   "the XOR reader as a state machine: ALL operation sequences up to depth 3 (thorough 4) over a 63-operation alphabet x 14 keys x 5 buffer capacities executed on the real XorReader<seek_bufread::BufReader> and compared step by step with a plain-slice reference; plus whole-program differential runs (obfuscated vs plaintext directory) over all layouts of C03",
   "17.8 million (quick) operation sequences on the real reader type built exactly as BlkFile::open builds it, every returned byte and position compared; and ~3500 runs of the real binary over all arrangements of the blocks in <=3 files, 8 keys, blocks larger than the 32 KiB buffer and >4 GiB sparse offsets, each compared with the plaintext directory's output and the model.",
